@@ -24,6 +24,9 @@ enum class validation_result : uint8_t {
 inline int pop_front_unichar(std::string_view& s) {
     // assuming that s.length() is > 0
 
+    // 10xxxxxx
+    auto is_cont = [](char c) { return (c & 0xC0) == 0x80; };
+
     int n = s[0] & 0xF0;
     int ch = -1;
 
@@ -31,18 +34,32 @@ inline int pop_front_unichar(std::string_view& s) {
         ch = s[0];
         s.remove_prefix(1);
     }
-    else if ((n == 0xC0 || n == 0xD0) && s.size() > 1) {
-        ch = ((s[0] & 0x1F) << 6) | (s[1] & 0x3F);
-        s.remove_prefix(2);
+    else if ((n == 0xC0 || n == 0xD0) && s.size() > 1 && is_cont(s[1])) {
+        int c = ((s[0] & 0x1F) << 6) | (s[1] & 0x3F);
+        if (c >= 0x80) { // reject overlong encodings
+            ch = c;
+            s.remove_prefix(2);
+        }
     }
-    else if ((n == 0xE0) && s.size() > 2) {
-        ch = ((s[0] & 0x1F) << 12) | ((s[1] & 0x3F) << 6) | (s[2] & 0x3F);
-        s.remove_prefix(3);
+    else if (
+        (n == 0xE0) && s.size() > 2 && is_cont(s[1]) && is_cont(s[2])
+    ) {
+        int c = ((s[0] & 0x0F) << 12) | ((s[1] & 0x3F) << 6) | (s[2] & 0x3F);
+        if (c >= 0x800) {
+            ch = c;
+            s.remove_prefix(3);
+        }
     }
-    else if ((n == 0xF0) && s.size() > 3) {
-        ch = ((s[0] & 0x1F) << 18) | ((s[1] & 0x3F) << 12) |
+    else if (
+        (n == 0xF0) && (s[0] & 0x08) == 0 && s.size() > 3 &&
+        is_cont(s[1]) && is_cont(s[2]) && is_cont(s[3])
+    ) {
+        int c = ((s[0] & 0x07) << 18) | ((s[1] & 0x3F) << 12) |
             ((s[2] & 0x3F) << 6) | (s[3] & 0x3F);
-        s.remove_prefix(4);
+        if (c >= 0x10000 && c <= 0x10FFFF) {
+            ch = c;
+            s.remove_prefix(4);
+        }
     }
 
     return ch;
